@@ -18,6 +18,9 @@ class Token:
     value: str
     lineno: int
     column: int
+    # Name of the file the token comes from (as set by #line directives seen
+    # before it); lineno and column are relative to it.
+    filename: str = ""
 
 
 class CLexer:
@@ -229,7 +232,7 @@ class CLexer:
         Returns a Token with lineno/column computed from current line tracking.
         """
         column = pos - self._line_start + 1
-        tok = Token(tok_type, value, self._lineno, column)
+        tok = Token(tok_type, value, self._lineno, column, self._filename)
         return tok
 
     def _error(self, msg: str, pos: int) -> None:
